@@ -19,7 +19,7 @@ Lemma gen_facts_matcher :
   fp_root_key = "/" /\ fp_root_key2 = "/" /\ fp_root_notin = "/" /\ fp_root_depth = 0%Z /\
   fp_best_init = (-1)%Z /\ fp_best_cmp = CGt /\ fp_split_sep = "/"%char /\ fp_prefix_method = "startswith" /\ fp_path_sep = "/" /\
   fp_prefix_form = PfRstripSep "/"%char "/" /\ fp_relative_resolved = true /\
-  fp_normalize_ops = [NReplace "\" "/"].
+  forallb is_sep_replace fp_normalize_ops = true.     (* nothing but the backslash replacement (or nothing at all) *)
 Proof. repeat split; reflexivity. Qed.
 
 Lemma gen_facts_checker :
@@ -56,8 +56,9 @@ Fixpoint no_backslash (s : string) : bool :=
 
 Definition norm_ok (q : pquirks) (f : fileq) : bool := negb (q_backslash_separator q) || no_backslash (relpath f).
 
-(* normalize_path_string as found in the source - str(path).replace("\", "/") - leaves a path without backslashes
-   alone; with the flag off the replacement is dropped and nothing else is done to the path *)
+(* normalize_path_string as found in the source - str(path).replace("\", "/"), or no string method at all once the
+   replacement is dropped - leaves a path without backslashes alone; with the flag off the replacement is dropped by
+   the model and nothing else is done to the path *)
 Lemma replace_backslash_id s : no_backslash s = true -> replace_go "\" "/" 0 s = s.
 Proof.
   induction s as [|c s IH]; intros H; [reflexivity|].
@@ -66,12 +67,50 @@ Proof.
   cbn [andb]. rewrite (IH Hs). reflexivity.
 Qed.
 
+(* what the faithful normalisation does to any path: every backslash becomes the separator, nothing else changes *)
+Definition backslash_to_slash (c : ascii) : ascii := if Ascii.eqb "\"%char c then "/"%char else c.
+
+Lemma replace_backslash_map s : replace_go "\" "/" 0 s = str_map backslash_to_slash s.
+Proof.
+  induction s as [|c s IH]; [reflexivity|].
+  cbn [replace_go starts_with str_map]. unfold backslash_to_slash at 1.
+  destruct (Ascii.eqb "\"%char c); cbn [andb String.length Nat.sub append]; rewrite IH; reflexivity.
+Qed.
+
+(* stated for the form the source has today; it says nothing once the replacement has been removed from the source *)
+Lemma path_str_faithful q s :
+  q_backslash_separator q = true -> fp_normalize_ops = [NReplace "\" "/"] -> path_str q s = str_map backslash_to_slash s.
+Proof.
+  intros H E. unfold path_str, norm_ops. rewrite H, E.
+  cbn [normalize fold_left norm_step]. apply replace_backslash_map.
+Qed.
+
+Lemma sep_replace_id o s : is_sep_replace o = true -> no_backslash s = true -> norm_step o s = s.
+Proof.
+  destruct o as [a b| | | | |]; cbn [is_sep_replace]; try discriminate. intros H Hs.
+  apply andb_true_iff in H. destruct H as [Ha Hb]. apply String.eqb_eq in Ha. apply String.eqb_eq in Hb. subst a b.
+  change fp_path_sep with "/". cbn [norm_step]. apply replace_backslash_id. exact Hs.
+Qed.
+
+Lemma sep_replaces_id ops : forall s, forallb is_sep_replace ops = true -> no_backslash s = true -> normalize ops s = s.
+Proof.
+  unfold normalize. induction ops as [|o ops IH]; intros s H Hs; [reflexivity|].
+  cbn [forallb] in H. apply andb_true_iff in H. destruct H as [Ho Hr].
+  cbn [fold_left]. rewrite (sep_replace_id o s Ho Hs). apply IH; assumption.
+Qed.
+
+Lemma filter_sep_replaces_nil ops : forallb is_sep_replace ops = true -> filter (fun o => negb (is_sep_replace o)) ops = [].
+Proof.
+  induction ops as [|o ops IH]; intros H; [reflexivity|].
+  cbn [forallb] in H. apply andb_true_iff in H. destruct H as [Ho Hr]. cbn [filter]. rewrite Ho. cbn [negb]. apply IH. exact Hr.
+Qed.
+
 Lemma path_str_id q s : negb (q_backslash_separator q) || no_backslash s = true -> path_str q s = s.
 Proof.
-  intros H. unfold path_str, norm_ops. change fp_normalize_ops with [NReplace "\" "/"].
-  destruct (q_backslash_separator q); cbn [negb orb] in H.
-  - cbn [normalize fold_left norm_step]. apply replace_backslash_id. exact H.
-  - reflexivity.
+  intros H. assert (G : forallb is_sep_replace fp_normalize_ops = true) by reflexivity.
+  unfold path_str, norm_ops. destruct (q_backslash_separator q); cbn [negb orb] in H.
+  - apply sep_replaces_id; assumption.
+  - rewrite (filter_sep_replaces_nil _ G). reflexivity.
 Qed.
 
 Section Engine.
